@@ -9,7 +9,9 @@ RULE = ("same program generator as C01, additionally with ignore_errors toggled 
         "lists, tuples, Array contents) lc evaluated on the recorded witness == reported .value (mod p); all earlier "
         "results are re-checked at the end (catches in-place updates of shared objects). Non-trivial = some operator "
         "in the program allocated a witness variable while error suppression or a guard was active, or the program "
-        "completed with >= 1 allocating operator; distinct by program digest.")
+        "completed with >= 1 allocating operator; distinct by program digest. Cell sweep: every (operation x "
+        "operand-type combination) x a fixed pool of in/out-of-domain operands x modes {normal, ignore_errors, guard 0, "
+        "guard 1, guard 1 around 0, guard 0 around 1}; there non-trivial = non-normal mode and the operation allocated a witness.")
 
 
 class Checker:
@@ -83,6 +85,49 @@ def shard(seed, n_examples, shrink=True):
     return core.finish_shard(stats, v, replay)
 
 
+MODES = ["normal", "ignore", "guard0", "guard1", "guard10", "guard01"]
+
+
+def grid_shard(cells, b, p):
+    """cell sweep: every (operation x operand-type combination) x a fixed operand pool x every mode"""
+    import itertools
+    from harness import opgrid
+    stats = core.Stats()
+    found = {}
+    lim = 1 << b
+    ipool = [-lim - 1, -1, 0, 1, 2, 3, lim - 1, lim]
+    for name, ts in cells:
+        op = ir.OPS[name]
+        pools = []
+        for pos, t in enumerate(ts):
+            if pos in op.params:
+                pools.append([0, 1, b, b + 1])
+            elif t in "Bb":
+                pools.append([0, 1])
+            elif t == "f":
+                pools.append([["f", 3, 2], ["f", -1, 1]])
+            else:
+                pools.append(ipool)
+        for vals in itertools.product(*pools):
+            for mode in MODES:
+                args = [(t, "priv" if i % 2 == 0 else "pub", v) for i, (t, v) in enumerate(zip(ts, vals))]
+                prog = opgrid.single({"p": p, "b": b, "r": 2, "ignore": False}, name, args, mode)
+                chk = Checker()
+                try:
+                    m = ir.run_program(prog, after=chk)
+                    chk.check_from(m, 0, "end of program")
+                except core.Violation as v:
+                    key = "%s.%s.%s" % (name, ts, mode)
+                    if key not in found:
+                        found[key] = {"case": prog, "msg": v.msg, "key": key}
+                    m = None
+                nt = mode != "normal" and m is not None and len(m.ns.rec.vals) > len(args) + 1 + (len(mode) - 5 if mode.startswith("guard") else 0)
+                stats.case([name, ts, [str(v) for v in vals], mode], nt,
+                           ("mode:" + mode, "op:" + name), sample_cap=2)
+    stats.violations = list(found.values())
+    return stats
+
+
 def replay(case):
     chk = Checker()
     try:
@@ -100,5 +145,19 @@ def run(ctx):
         shards = [dict(seed=ctx.seed * 1000 + i, n_examples=60) for i in range(16)]
     else:
         shards = [dict(seed=ctx.seed * 1000 + 100 + i, n_examples=4000) for i in range(16)]
-    ctx.stats = core.run_shards("harness.checks.c04", "shard", shards)
-    ctx.stats.extra["shard_seeds"] = [s["seed"] for s in shards]
+    from harness import opgrid
+    cells = []
+    for name in ir.OPS:
+        for ts in opgrid.type_combos(name):
+            if any(t in "LA" for t in ts) or len(ts) > 3:
+                continue
+            cells.append((name, "".join(ts)))
+    grids = [(3, "bn128")] if ctx.tier == "quick" else [(2, 67), (3, "bn128"), (4, "bls12-381"), (8, "curve25519")]
+    total = core.Stats()
+    for b, p in grids:
+        total.merge_json(core.run_shards("harness.checks.c04", "grid_shard",
+                                         [dict(cells=cells[i::16], b=b, p=p) for i in range(16)]).to_json())
+    total.merge_json(core.run_shards("harness.checks.c04", "shard", shards).to_json())
+    total.extra["shard_seeds"] = [s["seed"] for s in shards]
+    total.extra["cell_sweep"] = {"cells": len(cells), "modes": MODES, "grids": [list(g) for g in grids]}
+    ctx.stats = total
